@@ -424,6 +424,9 @@ class Consumer(object):
         # Are we waiting for a request to come back?
         if self._request_d:
             self._request_d.cancel()
+            # A reply parked behind the block being processed leaves its
+            # (fired) deferred here; forget it so that a restart can fetch.
+            self._request_d = None
         # Are we working our way through a block of messages?
         if self._msg_block_d:
             # Need to add a cancel handler...
